@@ -64,6 +64,26 @@ func VerifSetBlobTime(ctx context.Context, s Store, repoStr string, d digest.Dig
 	return fmt.Errorf("unknown repo type %T", repo)
 }
 
+// VerifSetAllBlobTimes changes the modification time of every blob currently stored in a repository.
+// It returns the digests that were changed.
+func VerifSetAllBlobTimes(ctx context.Context, s Store, repoStr string, t time.Time) ([]digest.Digest, error) {
+	repo, err := s.RepoGet(ctx, repoStr)
+	if err != nil {
+		return nil, err
+	}
+	dl, err := repo.blobList(false)
+	repo.Done()
+	if err != nil {
+		return nil, err
+	}
+	for _, d := range dl {
+		if err := VerifSetBlobTime(ctx, s, repoStr, d, t); err != nil {
+			return dl, err
+		}
+	}
+	return dl, nil
+}
+
 // VerifUploads lists the open upload sessions of a repository without refreshing their last use.
 func VerifUploads(ctx context.Context, s Store, repoStr string) ([]string, error) {
 	repo, err := s.RepoGet(ctx, repoStr)
